@@ -183,3 +183,26 @@ package side_chain_manager
 //@   ensures[c35-removed] r1 == nil && fired ==> Store[scKey("sideChain", cid)] == None
 //@   ensures[c35-onlyapproved] !fired ==> forall i uint64 :: Store[scKey("sideChain", i)] == old(Store)[scKey("sideChain", i)]
 //@   ensures[c35-requested] fired ==> old(Store)[scKey("quitSideChainRequest", cid)] != None
+
+// ---- C04: malformed bytes are rejected without panicking (parameter and record decoders) -----------------
+//@ func (*BtcTxParamDetial).Deserialization
+//@   property C04
+//@   requires this != nil && source != nil && source.off <= uint64(len(source.s))
+//@   modifies *this, source.off
+//@   ensures source.off <= uint64(len(source.s))
+
+//@ func (*BtcTxParam).Deserialization
+//@   property C04
+//@   requires this != nil && source != nil && source.off <= uint64(len(source.s))
+//@   modifies *this, source.off
+//@   ensures source.off <= uint64(len(source.s))
+//@   loop 1 invariant uint64(len(sigs)) == l && source.off <= uint64(len(source.s))
+//@   loop 1 modifies fresh
+
+//@ func (*RippleExtraInfo).Deserialization
+//@   property C04
+//@   mode abstract
+//@   nopanic on
+//@   requires this != nil && source != nil && source.off <= uint64(len(source.s))
+//@   modifies *this, source.off
+//@   loop 1 invariant uint64(len(pks)) == l && source != nil && source.off <= uint64(len(source.s))
